@@ -214,7 +214,7 @@ pub fn gen_for(target: Target, rng: &mut Rng) -> Node {
                 ("items".into(), Node::Seq((0..n).map(|_| gen_inner(rng)).collect())),
             ])
         }
-        Target::VecI => {
+        Target::VecI | Target::LenientVec => {
             let n = rng.below(8);
             Node::Seq((0..n).map(|_| Node::Int(rng.below(100000) as i64 - 50000)).collect())
         }
@@ -570,6 +570,8 @@ pub fn corpus() -> Vec<(String, Target)> {
         // an alias as a mapping value in front of a merge key and of a plain `<<` value
         ("b: &b {x: 1}\nm:\n  a: *b\n  <<: *b\n  c: <<\n", Json),
         ("b: &b {x: '1'}\nm: {a: *b, <<: *b}\n", Json),
+        ("- 1\n- 2\n- 3\n- 4\n", LenientVec),
+        ("[10, 20, oops, 40]", LenientVec),
         ("k: &x val\nj: *x\n", RcMap),
         ("a: &x one\nb: &y two\nc: *x\nd: *y\ne: plain\n", RcMap),
         ("base: &b {x: '1'}\n", Json),
